@@ -112,6 +112,11 @@ func (p *c02) Run(w *lib.Worker, idx int, r *lib.Rand) lib.Case {
 	c.Nontrivial = !schemaValid || len(edits) > 0
 	accepted := ""
 	var outcomes []any
+	if docHasCompositionCycle(text) {
+		// recorded C07 finding: with continue-on-errors such a document may kill the process (runaway recursion)
+		c.Tags = append(c.Tags, "skipped:known-C07-composition-cycle")
+		return c
+	}
 	for _, cont := range []bool{false, true} {
 		o := sut.ValidateDoc(reload(text), sut.SpecOpts{Continue: cont, Strict: true})
 		outcomes = append(outcomes, o)
